@@ -332,17 +332,12 @@ func (n *ForNode) Render(w io.Writer, ctx *RenderContext) error {
 					}
 
 					// Try to apply the filter
-					if ctx.env != nil {
-						filterFunc, found := ctx.env.filters[filterName]
-						if found {
-							filteredResult, err := filterFunc(baseValue)
-							if err == nil && filteredResult != nil {
-								if IsDebugEnabled() {
-									LogDebug("ForNode: Manual filter application successful")
-								}
-								seq = filteredResult
-							}
-						}
+					filteredResult, err := ctx.ApplyFilter(filterName, baseValue)
+					if err != nil {
+						return err
+					}
+					if filteredResult != nil {
+						seq = filteredResult
 					}
 				}
 			}
@@ -703,6 +698,7 @@ func (n *ExtendsNode) Render(w io.Writer, ctx *RenderContext) error {
 	// This ensures the parent template knows it's being extended and preserves our blocks
 	parentCtx := NewRenderContext(ctx.env, ctx.context, ctx.engine)
 	parentCtx.extending = true // Flag that the parent is being extended
+	parentCtx.sandboxed = ctx.sandboxed
 
 	// Pass along the parent template as lastLoadedTemplate for relative path resolution
 	parentCtx.lastLoadedTemplate = parentTemplate
@@ -845,6 +841,9 @@ func (n *IncludeNode) Render(w io.Writer, ctx *RenderContext) error {
 		includeCtx = NewRenderContext(ctx.env, contextVars, ctx.engine)
 		// Set the template as the lastLoadedTemplate for relative path resolutionn			includeCtx.lastLoadedTemplate = template
 		defer includeCtx.Release()
+
+		// A sandboxed context stays sandboxed in everything it includes
+		includeCtx.sandboxed = ctx.sandboxed
 
 		// If sandboxed, enable sandbox mode
 		if n.sandboxed {
@@ -1115,6 +1114,7 @@ func (n *MacroNode) CallMacro(w io.Writer, ctx *RenderContext, args ...interface
 	// Create a new context for the macro
 	macroCtx := NewRenderContext(ctx.env, nil, ctx.engine)
 	macroCtx.parent = ctx
+	macroCtx.sandboxed = ctx.sandboxed
 
 	// Ensure context is released even in error paths
 	defer macroCtx.Release()
@@ -1223,6 +1223,7 @@ func (n *ImportNode) Render(w io.Writer, ctx *RenderContext) error {
 
 	// Create a new context for the imported template
 	importCtx := NewRenderContext(ctx.env, nil, ctx.engine)
+	importCtx.sandboxed = ctx.sandboxed
 	// Set the template as the lastLoadedTemplate for relative path resolutionn	importCtx.lastLoadedTemplate = template
 
 	// Ensure context is released even in error paths
@@ -1314,6 +1315,7 @@ func (n *FromImportNode) Render(w io.Writer, ctx *RenderContext) error {
 
 	// Create a new context for the imported template
 	importCtx := NewRenderContext(ctx.env, nil, ctx.engine)
+	importCtx.sandboxed = ctx.sandboxed
 	// Set the template as the lastLoadedTemplate for relative path resolutionn	importCtx.lastLoadedTemplate = template
 
 	// Ensure context is released even in error paths
